@@ -457,6 +457,26 @@ def pol_complete(ctx):
     M = np.asarray(ctx["ts"].observation.action_mask).astype(bool)
     act = np.zeros(n, np.int64)
     left = [k for k in range(len(fpos)) if not eaten[k]]
+    # the cell of a food item that has just been collected is an ordinary free cell again: the nearest agent steps onto it and
+    # stays there for one step before the team moves on (agents standing on freed cells, moves onto them)
+    done_cells = [tuple(int(x) for x in fpos[m]) for m in range(len(fpos)) if eaten[m]]
+    visited = ctx.setdefault("lbf_freed_visited", set())
+    for cell in done_cells:
+        if cell in visited:
+            continue
+        occupied = {tuple(int(x) for x in apos[j]) for j in range(n)}
+        if cell in occupied:
+            visited.add(cell)
+            return act.astype(np.int32)  # everybody waits one step with an agent on the freed cell
+        for i in range(n):
+            cur = tuple(int(x) for x in apos[i])
+            if _adjacent(cur, cell):
+                for a_ in (1, 2, 3, 4):
+                    d = MOVES[a_]
+                    if (cur[0] + d[0], cur[1] + d[1]) == cell and M[i, a_]:
+                        act[i] = a_
+                        return act.astype(np.int32)
+        visited.add(cell)  # nobody is next to it any more
     if not left:
         return act.astype(np.int32)
     k = left[0]
